@@ -371,7 +371,9 @@ class RequestHandler(BaseProtocol, Generic[_Request]):
             # to avoid creating a future for every request.
             self._handler_waiter = self._loop.create_future()
             try:
-                async with ceil_timeout(timeout):
+                # Exact deadlines, not rounded up to a whole second: callers
+                # budget twice the timeout against a hard kill (gunicorn).
+                async with ceil_timeout(timeout, float("inf")):
                     await self._handler_waiter
             except (asyncio.CancelledError, asyncio.TimeoutError):
                 self._handler_waiter = None
@@ -383,7 +385,7 @@ class RequestHandler(BaseProtocol, Generic[_Request]):
                     raise
         # Then cancel handler and wait
         try:
-            async with ceil_timeout(timeout):
+            async with ceil_timeout(timeout, float("inf")):
                 if self._current_request is not None:
                     self._current_request._cancel(asyncio.CancelledError())
 
